@@ -254,24 +254,28 @@ Proof.
   - intros k _. reflexivity.
 Qed.
 
-Lemma MInv_same2 : forall s0 s0' Ex X inp s s',
+Lemma MInv_same3 : forall s0 s0' Ex X inp inp' s s',
   s_nodes s' = s_nodes s -> s_bwd s' = s_bwd s -> s_dirty s' = s_dirty s -> s_ts s' = s_ts s ->
-  s_world s' = s_world s -> s_ext s' = s_ext s ->
+  s_ext s' = s_ext s ->
   (s_visited s' = s_visited s \/ s_visited s' = []) ->
-  (forall m, In m (s_log s') -> JustAt s0' inp m) ->
+  (forall n i, get_info s n = Some i -> leaf n -> leaf_val inp' n = leaf_val inp n) ->
+  (forall n i, get_info s n = Some i -> i_verified i = s_ts s -> MSpecI p inp' n (i_value i)) ->
+  (forall k, get_info s (ext_node k) = None -> snd inp' k = Some (world_get s' k)) ->
+  (forall m, In m (s_log s') -> JustAt s0' inp' m) ->
   (forall m, sverified s' m \/ get_info s' m = get_info s0' m) ->
   (forall m i, get_info s' m = Some i ->
      In m (s_log s') \/ exists i0, get_info s0' m = Some i0 /\ forall d x, obsV i d x <-> obsV i0 d x) ->
-  MInvE s0 Ex X inp s -> MInvE s0' Ex X inp s'.
+  MInvE s0 Ex X inp s -> MInvE s0' Ex X inp' s'.
 Proof.
-  intros s0 s0' Ex X inp s s' Hn Hb Hd Ht Hw Hxt Hv HJ HU HO HI.
+  intros s0 s0' Ex X inp inp' s s' Hn Hb Hd Ht Hxt Hv HK HV HW HJ HU HO HI.
   assert (Hg : forall m, get_info s' m = get_info s m) by (intro m; unfold get_info; rewrite Hn; reflexivity).
   assert (Hf : forall m, old_fwd s' m = old_fwd s m) by (apply msn_fwd; exact Hg).
   assert (Hc : forall m, callers_of s' m = callers_of s m) by (intro m; unfold callers_of; rewrite Hb; reflexivity).
   assert (Hsd : forall a b, sdirty s' a b <-> sdirty s a b) by (intros; unfold sdirty; rewrite Hd; reflexivity).
   assert (Hsv : forall m, sverified s' m <-> sverified s m) by (apply msn_verified; assumption).
   destruct HI. split.
-  - intros n i. rewrite Hg. apply mi_kind0.
+  - intros n i. rewrite Hg. intro Hi. destruct (mi_kind0 n i Hi) as [(K1 & K2 & K3 & K4 & K5)|K]; [left|right; exact K].
+    rewrite (HK n i Hi K1). auto.
   - intros n i d. rewrite Hg. apply mi_obs0.
   - intros n i d o. rewrite Hg. apply mi_obs_fwd0.
   - intros n d. rewrite Hf, Hg. apply mi_target0.
@@ -286,7 +290,7 @@ Proof.
     intro K. apply (msn_GoodX _ _ Hg). auto.
   - intros n. rewrite Hsv, (msn_Good _ _ Hg). apply mi_G0.
   - intros n F. rewrite !Hsv, (msn_reach _ _ Hg). apply mi_T0.
-  - intros n i. rewrite Hg, Ht. apply mi_V0.
+  - intros n i. rewrite Hg, Ht. apply HV.
   - intros x Hx. destruct Hv as [Hv|Hv]; [|rewrite Hv in Hx; destruct Hx].
     rewrite Hv in Hx. destruct (mi_PV0 x Hx) as [K|[K|[K0 K]]].
     + left. exact K.
@@ -298,8 +302,24 @@ Proof.
   - exact HJ.
   - exact HU.
   - exact HO.
-  - intros k. rewrite Hg. unfold world_get. rewrite Hw. apply mi_W0.
+  - intros k. rewrite Hg. apply HW.
   - intros e. rewrite Hxt. apply mi_ext0.
+Qed.
+
+Lemma MInv_same2 : forall s0 s0' Ex X inp s s',
+  s_nodes s' = s_nodes s -> s_bwd s' = s_bwd s -> s_dirty s' = s_dirty s -> s_ts s' = s_ts s ->
+  s_world s' = s_world s -> s_ext s' = s_ext s ->
+  (s_visited s' = s_visited s \/ s_visited s' = []) ->
+  (forall m, In m (s_log s') -> JustAt s0' inp m) ->
+  (forall m, sverified s' m \/ get_info s' m = get_info s0' m) ->
+  (forall m i, get_info s' m = Some i ->
+     In m (s_log s') \/ exists i0, get_info s0' m = Some i0 /\ forall d x, obsV i d x <-> obsV i0 d x) ->
+  MInvE s0 Ex X inp s -> MInvE s0' Ex X inp s'.
+Proof.
+  intros s0 s0' Ex X inp s s' Hn Hb Hd Ht Hw Hxt Hv HJ HU HO HI.
+  apply (MInv_same3 s0 s0' Ex X inp inp s s' Hn Hb Hd Ht Hxt Hv); auto.
+  - intros n i. apply (mi_V _ _ _ _ _ HI).
+  - intros k Hk. unfold world_get. rewrite Hw. apply (mi_W _ _ _ _ _ HI). exact Hk.
 Qed.
 
 
@@ -363,22 +383,30 @@ Lemma tpath_stored : forall s0 Ex X inp s n x, MInvE s0 Ex X inp s -> get_info s
 Proof.
   intros s0 Ex X inp s n x HI Hn H. induction H; [exact Hn|]. apply IHtpath. eapply mi_target; eauto.
 Qed.
-Lemma minput_no_fwd : forall s0 Ex X inp s n, MInvE s0 Ex X inp s -> nkind n = KInput -> old_fwd s n = [].
+Lemma mleaf_no_fwd : forall s0 Ex X inp s n, MInvE s0 Ex X inp s -> leaf n -> old_fwd s n = [].
 Proof.
   intros s0 Ex X inp s n HI K. unfold old_fwd. destruct (get_info s n) as [i|] eqn:Hi; [|reflexivity].
   destruct (mi_kind _ _ _ _ _ HI n i Hi) as [(_ & F & _)|(K2 & _)]; [rewrite F; reflexivity|].
-  rewrite K in K2. discriminate.
+  destruct K as [K|K]; rewrite K in K2; discriminate.
 Qed.
+Lemma minput_no_fwd : forall s0 Ex X inp s n, MInvE s0 Ex X inp s -> nkind n = KInput -> old_fwd s n = [].
+Proof. intros s0 Ex X inp s n HI K. eapply mleaf_no_fwd; eauto. left. exact K. Qed.
 Lemma mstored_kind : forall s0 Ex X inp s n i, MInvE s0 Ex X inp s -> get_info s n = Some i ->
-  nkind n = KInput \/ nkind n = KFirewall \/ tkind n.
+  leaf n \/ nkind n = KFirewall \/ tkind n.
 Proof.
   intros s0 Ex X inp s n i HI Hi. destruct (mi_kind _ _ _ _ _ HI n i Hi) as [(K & _)|(K & _)]; [auto|].
   unfold tkind. destruct (nkind n); try discriminate; auto.
 Qed.
 Lemma thru_stored : forall s0 Ex X inp s n i, MInvE s0 Ex X inp s -> get_info s n = Some i -> thru n ->
-  nkind n = KInput \/ tkind n.
+  leaf n \/ tkind n.
 Proof.
   intros s0 Ex X inp s n i HI Hi Hn. destruct (mstored_kind _ _ _ _ _ _ _ HI Hi) as [K|[K|K]]; auto. contradiction.
+Qed.
+Lemma leaf_thru : forall n, leaf n -> thru n.
+Proof. intros n [K|K]; unfold thru; rewrite K; discriminate. Qed.
+Lemma MSpecI_leaf : forall env n v, leaf n -> leaf_val env n = Some v -> MSpecI p env n v.
+Proof.
+  intros env n v [K|K] H; unfold leaf_val in H; rewrite K in H; [apply MSpecI_input|apply MSpecI_ext]; assumption.
 Qed.
 Lemma tkind_thru : forall n, tkind n -> thru n.
 Proof. intros n [K|K]; unfold thru; rewrite K; discriminate. Qed.
@@ -396,7 +424,7 @@ Proof.
     assert (i0 = i) by congruence. subst i0.
     assert (Kd : tkind d).
     { destruct (thru_stored _ _ _ _ _ _ _ HI B Hnf) as [K|K]; [|exact K].
-      pose proof (minput_no_fwd _ _ _ _ _ _ HI K) as E0. inversion Hp; subst; [rewrite E0 in HF; destruct HF|].
+      pose proof (mleaf_no_fwd _ _ _ _ _ _ HI K) as E0. inversion Hp; subst; [rewrite E0 in HF; destruct HF|].
       match goal with H : In _ (old_fwd s d) |- _ => rewrite E0 in H; destruct H end. }
     assert (In F (i_tfc j)) by (eapply IH; eauto; eapply MGood_step; eauto).
     apply (proj2 (mi_tfc _ _ _ _ _ HI n i d v t Hi C) Kd). apply (E Hnf). assumption.
@@ -414,7 +442,7 @@ Lemma MSolid_value : forall s0 Ex X inp s, MInvE s0 Ex X inp s -> forall k d i, 
 Proof.
   intros s0 Ex X inp s HI. induction k as [|k IH]; intros d i Hk Hi [HG HR]; [lia|].
   destruct (mi_kind _ _ _ _ _ HI d i Hi) as [(K1 & _ & _ & _ & K5)|(K1 & e & l & He & Hev & Hl)].
-  - apply MSpecI_input; assumption.
+  - apply MSpecI_leaf; assumption.
   - eapply MSpecI_exec; eauto. eapply evr_msev; [exact Hev|].
     intros y v _ [t Ho].
     assert (Hy : In y (old_fwd s d)).
@@ -433,6 +461,34 @@ Qed.
 Lemma verified_Solid : forall s0 Ex X inp s n, MInvE s0 Ex X inp s -> sverified s n -> MSolid s n.
 Proof.
   intros s0 Ex X inp s n HI Hv. split; [eapply mi_G; eauto|]. intros F HF. eapply mi_T; eauto.
+Qed.
+
+(** the from-scratch values of the consistent part of the graph only depend on the inputs and on
+    the external inputs that are stored *)
+Lemma node_ext_eta : forall n, nkind n = KExternal -> n = ext_node (nidx n).
+Proof. intros [k i] K. cbn in K. subst k. reflexivity. Qed.
+
+Lemma respec : forall s0 Ex X env env' s, MInvE s0 Ex X env s -> fst env' = fst env ->
+  (forall k i, get_info s (ext_node k) = Some i -> snd env' k = Some (i_value i)) ->
+  forall k0 n i, (rk n < k0)%nat -> get_info s n = Some i -> (sverified s n \/ MSolid s n) ->
+  MSpecI p env' n (i_value i).
+Proof.
+  intros s0 Ex X env env' s HI He1 He2. induction k0 as [|k0 IH]; intros n i Hk Hi Hvs; [lia|].
+  assert (HS : MSolid s n) by (destruct Hvs as [Hv|HS]; [eapply verified_Solid; eauto|exact HS]).
+  destruct HS as [HG HR].
+  destruct (mi_kind _ _ _ _ _ HI n i Hi) as [(K1 & _ & _ & _ & K5)|(K1 & e & l & He & Hev & Hl)].
+  - apply MSpecI_leaf; [exact K1|]. unfold leaf_val in *. destruct K1 as [K1|K1]; rewrite K1 in *; cbv iota in *.
+    + etransitivity; [|exact K5]. f_equal. exact He1.
+    + apply He2. rewrite <- (node_ext_eta n K1). exact Hi.
+  - eapply MSpecI_exec; eauto. eapply evr_msev; [exact Hev|].
+    intros y v Hyl [t Ho].
+    assert (Hy : In y (old_fwd s n)) by (unfold old_fwd; rewrite Hi; apply Hl; exact Hyl).
+    destruct (HG n (tp_refl s n) y Hy) as (i0 & j & v0 & t0 & A & B & C & D & _).
+    assert (i0 = i) by congruence. subst i0. assert (v0 = v) by congruence. subst v0. subst v.
+    pose proof (mfwd_rk _ _ _ _ _ _ _ HI Hy) as Hr.
+    destruct (fw_or_thru y) as [Ky|Ky].
+    + apply IH; [lia|exact B|]. left. apply HR. apply mreach_direct; assumption.
+    + apply IH; [lia|exact B|]. right. eapply MSolid_step; eauto. split; assumption.
 Qed.
 
 (** a node with an inconsistent edge that is not excused has no clean edge above it *)
@@ -481,7 +537,7 @@ Lemma proj_fwd_kind : forall s0 Ex X inp s n d, MInvE s0 Ex X inp s -> nkind n =
   is_fw_or_proj (nkind d) = true.
 Proof.
   intros s0 Ex X inp s n d HI K Hd. unfold old_fwd in Hd. destruct (get_info s n) as [i|] eqn:Hi; [|destruct Hd].
-  destruct (mi_kind _ _ _ _ _ HI n i Hi) as [(K1 & _)|(_ & e & l & He & Hev & Hl)]; [congruence|].
+  destruct (mi_kind _ _ _ _ _ HI n i Hi) as [(K1 & _)|(_ & e & l & He & Hev & Hl)]; [destruct K1; congruence|].
   eapply Hproj; eauto. eapply evr_reads; eauto. apply Hl. exact Hd.
 Qed.
 Lemma no_proj_caller : forall s0 Ex X inp s x c, MInvE s0 Ex X inp s -> is_fw_or_proj (nkind x) = false ->
